@@ -141,6 +141,79 @@ Theorem C21_bound_both_updated :
 Proof. exact run_op_ok. Qed.
 Print Assumptions C21_bound_both_updated.
 
+(* ---- every shape of the API: overwrite = False / True / a collection of "history",
+   "tags"; stop_revision = None / b"null:" / a revision; [step_x] is pull or push on
+   one branch with these arguments, [run_op_x] the whole operation (master first) ---- *)
+
+(* history may be overwritten iff "history" is in the normalised overwrite argument *)
+Theorem C21_overwrite_history_iff :
+  forall ow, ow_history ow = true <-> ow = OwTrue \/ exists t, ow = OwSet true t.
+Proof. exact ow_history_spec. Qed.
+Print Assumptions C21_overwrite_history_iff.
+
+(* so False, set() and {"tags"} (--overwrite-tags) never drop the old tip: pull and
+   push, any stop revision including null: *)
+Theorem C21_no_silent_drop_all_shapes :
+  forall g, wf_dag g = true -> forall o tgt ao src stop ow t b',
+  ow_history ow = false -> tip tgt = Some t ->
+  step_x o g tgt ao src stop ow = Ok b' ->
+  exists t', tip b' = Some t' /\ is_ancestor g t t' = true.
+Proof. exact no_silent_drop_x. Qed.
+Print Assumptions C21_no_silent_drop_all_shapes.
+
+(* append-only, all shapes and operations: the old tip stays on the left-hand
+   history of the new tip; in particular a non-empty branch never becomes empty *)
+Theorem C21_append_only_all_shapes :
+  forall g, wf_dag g = true -> forall o tgt src stop ow t b',
+  tip tgt = Some t ->
+  step_x o g tgt true src stop ow = Ok b' ->
+  exists t', tip b' = Some t' /\ In t (lefthand g t').
+Proof. exact append_only_keeps_tip_x. Qed.
+Print Assumptions C21_append_only_all_shapes.
+
+Theorem C21_append_only_null_refused :
+  forall g tgt t,
+  tip tgt = Some t ->
+  set_null tgt true = Err AppendRevisionsOnlyViolation /\
+  (forall n, direct_set g tgt true n None = Err AppendRevisionsOnlyViolation) /\
+  generate_history g tgt true None = Err AppendRevisionsOnlyViolation /\
+  (forall o src ow, ow_history ow = true ->
+     step_x o g tgt true src StopNull ow = Err AppendRevisionsOnlyViolation).
+Proof. exact append_only_null_refused. Qed.
+Print Assumptions C21_append_only_null_refused.
+
+(* set_last_revision_info / generate_revision_history called directly *)
+Theorem C21_append_only_direct :
+  forall g tgt t b',
+  tip tgt = Some t ->
+  ((exists n new, direct_set g tgt true n new = Ok b') \/ (exists new, generate_history g tgt true new = Ok b')) ->
+  exists t', tip b' = Some t' /\ In t (lefthand g t').
+Proof. exact direct_append_only. Qed.
+Print Assumptions C21_append_only_direct.
+
+Theorem C21_null_stop_unchanged :
+  forall g o tgt ao src ow,
+  ow_history ow = false -> step_x o g tgt ao src StopNull ow = Ok tgt.
+Proof. exact null_stop_unchanged. Qed.
+Print Assumptions C21_null_stop_unchanged.
+
+Theorem C21_error_leaves_target_all_shapes :
+  forall g o w src stop ow e w',
+  run_op_x o g w src stop ow = (Some e, w') -> local w' = local w.
+Proof. intros g o w src stop ow. apply run_gen_error_unchanged. Qed.
+Print Assumptions C21_error_leaves_target_all_shapes.
+
+Theorem C21_bound_both_updated_all_shapes :
+  forall g o w src stop ow w',
+  run_op_x o g w src stop ow = (None, w') ->
+  step_x o g (local w) (local_ao w) src stop ow = Ok (local w') /\
+  match master w with
+  | None => master w' = None
+  | Some (m, mao) => exists m', master w' = Some (m', mao) /\ step_x o g m mao src stop ow = Ok m'
+  end.
+Proof. intros g o w src stop ow w'. apply (run_gen_ok (fun b ao => step_x o g b ao src stop ow)). Qed.
+Print Assumptions C21_bound_both_updated_all_shapes.
+
 (* the underlying graph facts (Lib/Dag): ancestry is the reflexive-transitive
    closure of "parent of"; the revno is the left-hand history length *)
 Theorem C21_ancestors_is_closure :
@@ -199,3 +272,17 @@ Example ex_ghost :
   lefthand_present ex_g 6 = false /\
   update_revisions ex_g (mkB (Some 1) 2) false (mkB (Some 4) 4) (Some 6) true = Err GhostRevisionsHaveNoRevno.
 Proof. split; reflexivity. Qed.
+
+(* {"tags"} on diverged branches (brz pull --overwrite-tags): still DivergedBranches;
+   null: onto a non-empty append-only branch: refused *)
+Example ex_tags_only_diverged :
+  ow_history (OwSet false true) = false /\
+  step_x Pull ex_g (mkB (Some 4) 4) false (mkB (Some 5) 3) NoStop (OwSet false true) = Err DivergedBranches /\
+  step_x Push ex_g (mkB (Some 4) 4) false (mkB (Some 5) 3) NoStop (OwSet true false) = Ok (mkB (Some 5) 3).
+Proof. repeat split; reflexivity. Qed.
+
+Example ex_null_append_only :
+  step_x Pull ex_g (mkB (Some 4) 4) true (mkB (Some 5) 3) StopNull OwTrue = Err AppendRevisionsOnlyViolation /\
+  step_x Pull ex_g (mkB (Some 4) 4) false (mkB (Some 5) 3) StopNull OwTrue = Ok (mkB None 0) /\
+  step_x Pull ex_g (mkB (Some 4) 4) true (mkB (Some 5) 3) StopNull (OwSet false true) = Ok (mkB (Some 4) 4).
+Proof. repeat split; reflexivity. Qed.
